@@ -151,6 +151,13 @@ func (Engine) Generate(r *simcore.RNG, tier string, idx int) *simcore.Plan {
 				p.Steps = append(p.Steps, st)
 			}
 		}
+		if rich && b == 2 && r.Chance(0.5) {
+			// an early, expedited taker-fee share agreement proposed and voted by the staked account 0: in force
+			// from about block 8 on, so that swaps are skimmed for most of the run
+			st := txStep("gov-submit")
+			st.A[0], st.A[1], st.A[2], st.A[3], st.A[4], st.A[6], st.A[7] = 0, 0, 0, 0, 0, 1, 3
+			p.Steps = append(p.Steps, st)
+		}
 		ntx := r.Weighted([]int{15, 30, 25, 18, 12})
 		for t := 0; t < ntx; t++ {
 			wts := lateWeights
